@@ -45,7 +45,8 @@ def replay(job):
                     extra[key] = "%s_hook.sh" % which
         extra["tag_message"] = "release {new_version}" if conf["tagmsg"] else ""
         c, t, p = conf["cfg"]
-        proj.write("bumpver.toml", project.bumpver_toml(OLD, "MAJOR.MINOR.PATCH", [("a.txt", ["{version}"]), ("b.txt", ["v={version}"])], commit=c, tag=t, push=p, extra=extra))
+        # the same configuration in bumpver.toml, setup.cfg or pyproject.toml (after what other tools may have left there)
+        proj.write(*project.config_file(["bumpver.toml", "bumpver.toml", "setup.cfg", "pyproject.toml"][seed % 4], OLD, "MAJOR.MINOR.PATCH", [("a.txt", ["{version}"]), ("b.txt", ["v={version}"])], commit=c, tag=t, push=p, extra=extra, variant=seed // 4))
         proj.write("a.txt", "version %s\n" % OLD)
         proj.write("b.txt", "x\nv=%s\n" % OLD)
         proj.write("other.txt", "unrelated\n")
